@@ -986,6 +986,13 @@ class Interp:
         # super()
         if isinstance(e.func, ast.Name) and e.func.id == 'super':
             return self.make_super(e, fr)
+        if self.spec_mode and isinstance(e.func, ast.Name) and e.func.id == 'implies' and len(e.args) == 2:
+            # lazy in the guard: implies(False, <anything, even ill-defined>) is True
+            g = self.truth(self.eval(e.args[0], fr))
+            if g is False:
+                return True
+            r = self.truth(self.eval(e.args[1], fr))
+            return disj(self, [neg(g), r])
         f = self.eval(e.func, fr)
         args = []
         for a in e.args:
